@@ -74,6 +74,24 @@ def staged(jobs, stride=1, kinds=("solve",), cuts="alt"):
     return out
 
 
+def early(jobs, stride=1):
+    """The same programs with the solver object created right after the problem, before the declarations: what a
+    solver reads when it is *constructed* (instead of when it is initialised) is stale by the time it solves."""
+    import copy
+
+    out = []
+    for n, j in enumerate(jobs):
+        if n % stride or (j["program"].get("early_solver") is not None):
+            continue
+        j2 = copy.deepcopy(j)
+        kw = dict(j.get("solver") or {})
+        kw.setdefault("max_time", 30)
+        j2["program"]["early_solver"] = kw
+        j2["family"] = j.get("family", "") + "+early-solver"
+        out.append(j2)
+    return out
+
+
 def rotate(items, seed=None):
     """VERIF_SEED only rotates the iteration order; no result may depend on it."""
     items = list(items)
